@@ -143,6 +143,28 @@ def gen_case(rnd, idx):
     return {"id": cid, "files": files, "main": "\n".join(main) + "\n", "search": search, "env": env, "root": root}
 
 
+def file_entry(rnd, c):
+    """a quarter of the arrangements are analysed through the FILE entry point: the main text is a file (listed in
+    `files` like the others) whose path is given absolutely, or relatively and found through the search / environment
+    list or in the working directory"""
+    if rnd.random() >= 0.25:
+        return c
+    lst = c["search"] if c["search"] is not None else c["env"]
+    root = c["root"]
+    if lst and rnd.random() < 0.7:
+        d = rnd.choice(lst)
+        rel = d[len(root) + 1:] if d.startswith(root + "/") else d
+        mainfile = rel.rstrip("/") + "/main.qasm"
+        # relative name: resolved through the list (no other main.qasm exists, so the first hit is this one)
+        mainarg = "main.qasm" if rnd.random() < 0.6 else "@ROOT@/" + mainfile
+    else:
+        mainfile = "main.qasm"
+        mainarg = "main.qasm" if rnd.random() < 0.5 else "@ROOT@/main.qasm"
+    c["files"][mainfile] = c["main"]
+    c.update({"entry": "file", "mainfile": mainfile, "mainarg": mainarg})
+    return c
+
+
 def expected_resolution(case, path):
     """the specification of resolve_file_path over the arrangement"""
     root = case["root"]
@@ -202,7 +224,7 @@ def splice(case, text, depth=0):
 
 def check(ctx):
     C.extract(ctx)
-    C.prove(ctx, ["Oq3.Props.C18", "Oq3.Props.C18Frame", "Oq3.Props.C18Mono", "Oq3.Props.C18Equiv", "Oq3.Props.C18Conv", "Oq3.Props.C18MonoErr", "Oq3.Props.C18Panic"])
+    C.prove(ctx, ["Oq3.Props.C18", "Oq3.Props.C18Frame", "Oq3.Props.C18Mono", "Oq3.Props.C18Equiv", "Oq3.Props.C18Conv", "Oq3.Props.C18MonoErr", "Oq3.Props.C18Panic", "Oq3.Props.C18Entry"])
     okb, log = C.cargo_build()
     if not okb:
         C.violation(ctx, "harness-build-failed", {"log": log[-3000:]}, no_input=True)
@@ -210,7 +232,7 @@ def check(ctx):
     os.makedirs(BASE, exist_ok=True)
     rnd = random.Random(ctx.seed)
     n = 1500 if ctx.tier == "quick" else 25000
-    cases = [gen_case(rnd, i) for i in range(n)]
+    cases = [file_entry(rnd, gen_case(rnd, i)) for i in range(n)]
     impl = C.run_impl(ctx, "include", [json.dumps({k: v for k, v in c.items() if k != "root"} | {"main": c["main"]}) for c in cases], tag="inc")
     # the syntax layers' view of every text, for the model
     texts = []
@@ -230,6 +252,9 @@ def check(ctx):
                 fs.append(f"file=x{G.enc(key)}={r}")
         for k in ("search", "env"):
             fs.append(f"{k}=" + ("-" if c[k] is None else ",".join("x" + G.enc(d) for d in c[k])))
+        if c.get("entry") == "file":
+            fs.append("entry=file")
+            fs.append("mainpath=x" + G.enc(c["mainarg"].replace("@ROOT@", c["root"])))
         mlines.append("\t".join(fs))
     have_model = ctx.lake_ok
     model = C.run_model(ctx, "include", mlines, tag="minc") if have_model else [None] * len(cases)
@@ -248,7 +273,8 @@ def check(ctx):
         a = impl[i]
         b = model[i]
         xf = a.split(";xflags=", 1)[1] if ";xflags=" in a else ""
-        a = a.split(";xflags=", 1)[0]                 # the x* fields are not part of the include model's output
+        a = a.split(";xmain=", 1)[0]                  # xmain / xeq (tree facts of the real files) are outside the include model
+        a_noflags = a.split(";xflags=", 1)[0]
         if have_model:
             pa, pb = PL.canon_panic(a), PL.canon_panic(b)
             ca, cb = canon_line(a, c), canon_line(b, c)
